@@ -99,10 +99,10 @@ impl Lexer {
     /// Check if the given character is whitespace, excluding newlines.
     ///
     /// This function will return true if the current character is a space,
-    /// tab, or comma. Newlines are not considered whitespace as it is a
+    /// tab, comma, or carriage return. Newlines are not considered whitespace as it is a
     /// token in the lexer.
     fn is_ws(ch: char) -> bool {
-        ch == ' ' || ch == '\t' || ch == ','
+        ch == ' ' || ch == '\t' || ch == ',' || ch == '\r'
     }
 
     /// Check if the given character is a character usable in a symbol.
@@ -125,6 +125,19 @@ impl Lexer {
     fn skip_ws(&mut self) {
         while let Some(current) = self.current() {
             if !Self::is_ws(current) {
+                break;
+            }
+            self.consume_char();
+        }
+    }
+
+    /// Skip to the end of the current line, without consuming the newline.
+    ///
+    /// This is used after an invalid string or character literal, so that
+    /// the remains of the literal are not lexed as further tokens.
+    fn skip_to_eol(&mut self) {
+        while let Some(current) = self.current() {
+            if current == '\n' {
                 break;
             }
             self.consume_char();
@@ -380,6 +393,7 @@ impl Iterator for Lexer {
                 let string_str = match self.acc_string() {
                     Ok(s) => s,
                     Err(e) => {
+                        self.skip_to_eol();
                         return Some(Err(LexError::InvalidString(
                             Box::new(Token::new(
                                 TokenType::String(String::new()),
@@ -414,22 +428,26 @@ impl Iterator for Lexer {
                         '\\' => match self.escape_code() {
                             Some(ec) => ec,
                             None => {
-                                return Some(self.invalid_string(
+                                let err = self.invalid_string(
                                     c.to_string(),
                                     StringLexErrorType::InvalidEscapeSequence,
                                     start,
                                     self.get_pos(),
-                                ))
+                                );
+                                self.skip_to_eol();
+                                return Some(err);
                             }
                         },
                         // Can't have a literal newline in a character
                         '\n' => {
-                            return Some(self.invalid_string(
+                            let err = self.invalid_string(
                                 c.to_string(),
                                 StringLexErrorType::Newline,
                                 start,
                                 self.get_pos(),
-                            ))
+                            );
+                            self.skip_to_eol();
+                            return Some(err);
                         }
                         // Otherwise, return the character as is
                         c => c,
@@ -453,32 +471,44 @@ impl Iterator for Lexer {
 
                         // The character is unclosed
                         let end = self.get_pos();
-                        return Some(self.invalid_string(
+                        let err = self.invalid_string(
                             c.to_string(),
                             StringLexErrorType::Unclosed,
                             start,
                             end,
-                        ));
+                        );
+                        self.skip_to_eol();
+                        return Some(err);
                     }
                 }
 
                 let end = self.get_pos();
-                return Some(self.invalid_string(
+                let err = self.invalid_string(
                     String::new(), // Empty string, since we are at EOF
                     StringLexErrorType::Unclosed,
                     start,
                     end,
-                ));
+                );
+                self.skip_to_eol();
+                return Some(err);
             }
             _ => {
                 // symbol
                 let start = self.get_pos();
                 let mut symbol_str: String = String::new();
 
-                // If the first character is not a symbol char -> error
+                // If the first character is not a symbol char -> error.
+                // The character is consumed so that lexing continues after it.
                 if let Some(current) = self.current() {
                     if !Self::is_symbol_item(current) {
-                        return None;
+                        let pos = self.get_range();
+                        self.consume_char();
+                        return Some(Err(LexError::UnexpectedToken(Box::new(Token::new(
+                            TokenType::Symbol(current.to_string()),
+                            current.to_string(),
+                            pos,
+                            self.source_id,
+                        )))));
                     }
                 }
 
